@@ -906,7 +906,9 @@ func ParseBranchStmt(p *ParserZH) *syntax.BranchStmt {
 	mainIndent := p.getCurrIndent()
 	var hState = stateInit
 
-	for p.peek().Type != TypeEOF {
+	// the if-branch is mandatory: enter the loop at least once, so that 如果 at
+	// the very end of input is rejected instead of yielding an empty BranchStmt
+	for hState == stateInit || p.peek().Type != TypeEOF {
 		// parse header
 		switch hState {
 		case stateInit:
